@@ -96,6 +96,9 @@ pub enum Op {
     Fill(u32, u32, u32),
     /// the same get `n` times (seek-triggered compaction)
     GetN(Vec<u8>, u32),
+    /// `n` fresh iterators, each seeks to the key and reads one entry (every new iterator samples
+    /// its first read: read-sample charges and the compactions they trigger)
+    SeekN(Vec<u8>, u32),
     /// create an iterator (pins the current version and memtables), keep it open
     IterOpen(u32),
     /// scan the kept iterator completely, compare with the state at its creation, drop it
@@ -151,6 +154,7 @@ impl Op {
             Op::Idle => "I".to_string(),
             Op::Fill(s, n, l) => format!("F:{s}:{n}:{l}"),
             Op::GetN(k, n) => format!("M:{}:{n}", hex(k)),
+            Op::SeekN(k, n) => format!("J:{}:{n}", hex(k)),
             Op::IterOpen(i) => format!("O:{i}"),
             Op::IterClose(i) => format!("Q:{i}"),
         }
@@ -187,6 +191,7 @@ impl Op {
             "I" => Op::Idle,
             "F" => Op::Fill(p.get(1)?.parse().ok()?, p.get(2)?.parse().ok()?, p.get(3)?.parse().ok()?),
             "M" => Op::GetN(unhex(p.get(1)?)?, p.get(2)?.parse().ok()?),
+            "J" => Op::SeekN(unhex(p.get(1)?)?, p.get(2)?.parse().ok()?),
             "O" => Op::IterOpen(p.get(1)?.parse().ok()?),
             "Q" => Op::IterClose(p.get(1)?.parse().ok()?),
             _ => return None,
@@ -831,6 +836,28 @@ pub fn run_history(h: &History, checks: &Checks, fs: &SimFs) -> RunOut {
                     check_get(&got, oracle.get(k), k, "c01:get-mismatch", "latest state", i, &mut obs);
                     if obs.len() > before {
                         break;
+                    }
+                }
+            }
+            Op::SeekN(k, n) => {
+                let want = oracle.range(k.clone()..).next().map(|(a, b)| (a.clone(), b.clone()));
+                for _ in 0..*n {
+                    stats.scans += 1;
+                    let got: Result<Option<(Vec<u8>, Vec<u8>)>, String> = (|| {
+                        let mut it = d.new_iterator(ReadOptions::default()).map_err(|e| format!("new_iterator: {e}"))?;
+                        it.seek(k).map_err(|e| format!("seek: {e}"))?;
+                        Ok(if it.is_valid() { it.current().map(|(a, b)| (a.clone(), b.clone())) } else { None })
+                    })();
+                    match got {
+                        Err(e) => {
+                            obs.push(Obs { sig: "c01:scan-error".into(), what: e, at: i });
+                            break;
+                        }
+                        Ok(g) if g != want => {
+                            obs.push(Obs { sig: "c01:seek-mismatch".into(), what: format!("a fresh iterator seeking {} stands on {:?}, expected {:?}", hex(k), g.as_ref().map(|x| hex(&x.0)), want.as_ref().map(|x| hex(&x.0))), at: i });
+                            break;
+                        }
+                        Ok(_) => {}
                     }
                 }
             }
